@@ -308,6 +308,25 @@ pub fn evaluate(sc: &CacheSc, h: &Hist, out: &RunOut) -> Vec<Violation> {
           }
         }
       }
+      // ... and so is every removal the cache made on its own (capacity eviction, expiry): the
+      // definitely-last value written to a key that no user operation removed and that is no
+      // longer in the map at the drain audit was taken out by the cache itself.
+      if let Some(fin) = &h.fin {
+        if fin.settled && !fin.audit.is_empty() {
+          for k in 0..8u8 {
+            let kw: Vec<&Write> = writes.iter().filter(|w| w.key == k).collect();
+            let Some(last) = kw.iter().find(|w| w.ret != u64::MAX && kw.iter().all(|o| o.id == w.id || o.ret < w.inv)) else { continue };
+            if removals.iter().any(|r| (r.key.is_none() || r.key == Some(k)) && r.ret >= last.inv) {
+              continue;
+            }
+            let Some(a) = fin.audit.iter().find(|a| a.0 == k) else { continue };
+            let still_there = a.1.is_some() || fin.residents.iter().any(|r| r.0 == k);
+            if !still_there && !h.notes.iter().any(|n| n.id == last.id) {
+              vs.push(viol(sc, "C16", "eviction_not_notified", &[], format!("value {} is the last one written to key {k}, nobody removed it, it is no longer in the cache at quiescence, yet the listener (which kept up) was never told (notifications: {:?})", last.id, h.notes.iter().map(|n| (n.key, n.id, n.reason)).collect::<Vec<_>>())));
+            }
+          }
+        }
+      }
     }
   }
 
